@@ -30,7 +30,7 @@ def scenarios(tier, rng):
         strings = []
         if bits <= 16:
             strings += [[x] for x in range(256)]
-            step = 1 if not quick else 5
+            step = (1 if bits in (7, 8, 9, 16) else 3) if not quick else 5
             strings += [[x, y] for x in range(0, 256, step) for y in range(0, 256, step)]
             strings += [[x, 255] for x in range(256)] + [[255, x] for x in range(256)]
         lens = range(0, nb + 9) if bits <= 576 else sorted({0, 1, 8, nb - 8, nb - 1, nb, nb + 1, nb + 8})
